@@ -1,6 +1,6 @@
 From Coq Require Import Extraction ExtrOcamlBasic.
 From F8 Require Import Base.Conv Codec.Bytes Codec.Meta Codec.Extract Codec.Decode Codec.Encode Codec.Render
-                       C11.Copy C11.Spec_C11.
+                       C08.NumFloat C11.Copy C11.Spec_C11 C11.Precision.
 Extraction Language OCaml.
 Extraction "../ocaml/gen/C11/model.ml" keep_types
   cstr itoa_N itoa_Z fast_atoi_u16 fast_atoi_u32 fast_atoi_i32
@@ -10,4 +10,5 @@ Extraction "../ocaml/gen/C11/model.ml" keep_types
   mb_encode msg_encode msg_encode_str
   render_default canonical
   copy_legal move_legal clone copy_msg move_msg
+  prec_split field_state render_c11
   content same_content count_fields c11_ok.
